@@ -134,6 +134,16 @@ def stepLine (d : DS) (toks : List String) : DS × String :=
           | some out => joinOr ((out.take ((n - 1) * (n - 1))).map toString)
           | none => "fault")
     | _, _ => (d, "bad-op")
+  | ["ksadd", cl, n, enc] =>
+    -- TRACE current_Ks when a particle is added mid-step: old matrix entry k is k+2, unwritten cells -7, the first `enc`
+    -- particles are in the encounter (the star, index 0, is not flagged)
+    match n.toNat?, enc.toNat? with
+    | some n, some enc =>
+      let ks : List Int := (List.range ((n + 1) * (n + 1))).map fun k => if k < n * n then (k : Int) + 2 else -7
+      (d, match RV.Particles.Side.ksAdd (bit cl) n ((List.range enc).drop 1) (0 : Int) 1 ks with
+          | some out => joinOr (out.map toString)
+          | none => "fault")
+    | _, _ => (d, "bad-op")
   | ["mercp1", zf, safe, synced, rr, rcc, nd, n] =>
     -- MERCURIUS part1 on a dcrit array with nd written cells: was an unwritten cell read? new size, flags
     match nd.toNat?, n.toNat? with
